@@ -32,6 +32,7 @@ pub(crate) fn is_start_of_declarative_part(token_kind: TokenKind) -> bool {
                 | Kw::Package
                 | Kw::For
                 | Kw::Disconnect
+                | Kw::Group
                 | Kw::View
                 | Kw::Begin
         )
@@ -72,6 +73,7 @@ impl Parser {
                 Keyword(Kw::Attribute) => self.attribute_declaration_or_specification(),
                 Keyword(Kw::Use) => self.use_clause_declaration(),
                 Keyword(Kw::Alias) => self.alias_declaration(),
+                Keyword(Kw::Group) => self.group_template_declaration_or_group_declaration(),
                 _ => {
                     self.expect_tokens_recover([
                         Keyword(Kw::Type),
@@ -92,6 +94,7 @@ impl Parser {
                         Keyword(Kw::Attribute),
                         Keyword(Kw::Use),
                         Keyword(Kw::Alias),
+                        Keyword(Kw::Group),
                     ]);
                 }
             }
@@ -136,6 +139,44 @@ impl Parser {
             }
             self.end_node();
         }
+    }
+
+    pub(crate) fn group_template_declaration_or_group_declaration(&mut self) {
+        if self.next_nth_is(Keyword(Kw::Is), 2) {
+            self.group_template_declaration();
+        } else {
+            self.group_declaration();
+        }
+    }
+
+    pub fn group_template_declaration(&mut self) {
+        self.start_node(GroupTemplateDeclaration);
+        self.expect_kw(Kw::Group);
+        self.identifier();
+        self.expect_kw(Kw::Is);
+        self.expect_token(LeftPar);
+        self.separated_list(EntityClassEntryList, Parser::entity_class_entry, Comma);
+        self.expect_token(RightPar);
+        self.expect_token(SemiColon);
+        self.end_node();
+    }
+
+    pub fn entity_class_entry(&mut self) {
+        self.start_node(EntityClassEntry);
+        self.entity_class();
+        self.opt_token(BOX);
+        self.end_node();
+    }
+
+    pub fn group_declaration(&mut self) {
+        self.start_node(GroupDeclaration);
+        self.expect_kw(Kw::Group);
+        self.identifier();
+        self.expect_token(Colon);
+        // The group constituent list is the parenthesized tail of the name
+        self.name();
+        self.expect_token(SemiColon);
+        self.end_node();
     }
 
     pub fn disconnection_specification(&mut self) {
@@ -255,6 +296,60 @@ Declarations
       Name
         NameDesignatorPrefix
           Identifier 'dly'
+    SemiColon
+"
+        );
+    }
+
+    #[test]
+    fn group_template_declaration_and_group_declaration() {
+        assert_eq!(
+            to_test_text(
+                Parser::declarations,
+                "group grp is (signal, label <>); group g1 : grp (a, 'b');"
+            ),
+            "\
+Declarations
+  GroupTemplateDeclaration
+    Keyword(Group)
+    Identifier 'grp'
+    Keyword(Is)
+    LeftPar
+    EntityClassEntryList
+      EntityClassEntry
+        Keyword(Signal)
+      Comma
+      EntityClassEntry
+        Keyword(Label)
+        BOX
+    RightPar
+    SemiColon
+  GroupDeclaration
+    Keyword(Group)
+    Identifier 'g1'
+    Colon
+    Name
+      NameDesignatorPrefix
+        Identifier 'grp'
+      ParenthesizedName
+        LeftPar
+        AssociationList
+          AssociationElement
+            ActualPart
+              ActualPartExpression
+                NameExpression
+                  Name
+                    NameDesignatorPrefix
+                      Identifier 'a'
+          Comma
+          AssociationElement
+            ActualPart
+              ActualPartExpression
+                NameExpression
+                  Name
+                    NameDesignatorPrefix
+                      CharacterLiteral ''b''
+        RightPar
     SemiColon
 "
         );
